@@ -58,6 +58,7 @@ type Runner struct {
 	// per-set history of template versions that have a revision
 	Versions    map[string][]int
 	maxRestarts int
+	restarts    int // of this scenario (the budget must not depend on what the process ran before)
 }
 
 func NewRunner(w *World, seed int64, cfg Cfg) *Runner {
@@ -82,6 +83,12 @@ func (r *Runner) Reconcile(set string) *Record {
 	r.logRec(rec)
 	if r.OnRecord != nil {
 		r.OnRecord(rec)
+	}
+	if rec.Crash && r.restarts < r.maxRestarts+2 {
+		// the process died at that call: a new one starts over the same API state
+		r.restarts++
+		r.W.Restart()
+		r.logf("restart after the crash")
 	}
 	return rec
 }
@@ -497,7 +504,8 @@ func (r *Runner) Step() {
 		w.Relist(res)
 		r.logf("relist %s", res)
 	case x < 98:
-		if r.Cfg.Restarts && w.Restarts < r.maxRestarts {
+		if r.Cfg.Restarts && r.restarts < r.maxRestarts {
+			r.restarts++
 			w.Restart()
 			r.logf("restart")
 		}
@@ -512,7 +520,7 @@ func (r *Runner) planFault() {
 	kinds := []string{"500", "timeout", "conflict", "notfound", "exists"}
 	modes := []string{"before", "after", "crash-before", "crash-after"}
 	f := &simapi.Fault{Nth: 1 + r.Rng.Intn(12), Kind: kinds[r.Rng.Intn(len(kinds))], Mode: modes[r.Rng.Intn(len(modes))]}
-	if (f.Mode == "crash-before" || f.Mode == "crash-after") && r.W.Restarts >= r.maxRestarts {
+	if (f.Mode == "crash-before" || f.Mode == "crash-after") && r.restarts >= r.maxRestarts {
 		f.Mode = "before"
 	}
 	r.W.Srv.ClearFaults()
